@@ -359,6 +359,8 @@ def _read_request(
     external_config: ExternalLocationConfig | None = None,
     shm: ShmSegment | None = None,
     attach_shm: Callable[[pa.KeyValueMetadata | None], ShmSegment | None] | None = None,
+    *,
+    contain_decode_errors: bool = False,
 ) -> tuple[str, dict[str, object]]:
     """Read a request IPC stream, return (method_name, kwargs).
 
@@ -389,6 +391,11 @@ def _read_request(
             to the transport kind), or ``None`` to disable dynamic attach.
             Used only when *shm* is ``None`` and the request is a shm
             pointer; the segment it returns is detached before returning.
+        contain_decode_errors: When ``True`` (the socket serve loop), any
+            exception raised while decoding the already-drained request is
+            re-raised as ``RpcError("ProtocolError")`` so the caller can
+            answer it and keep the connection.  HTTP leaves it ``False`` and
+            maps the original exception class to a status itself.
 
     Returns:
         ``(method_name, kwargs)`` — the dispatched method name and its
@@ -409,6 +416,32 @@ def _read_request(
     # in the IPC stream would corrupt the next request's framing and
     # tear down the worker connection.
     _drain_stream(reader)
+    # The request stream is fully consumed: the transport is positioned at the
+    # next request whatever happens from here on.  Anything the request's own
+    # metadata or columns make us raise below (a shared-memory or external
+    # pointer that does not resolve, a value ``as_py()`` cannot represent) is
+    # a bad request, not a broken connection.  On a socket connection report
+    # it as a protocol error so ``serve_one`` answers with an error stream and
+    # the serve loop carries on, instead of letting it escape and end the
+    # connection without a reply.
+    if not contain_decode_errors:
+        return _decode_request(batch, custom_metadata, external_config, shm, attach_shm)
+    try:
+        return _decode_request(batch, custom_metadata, external_config, shm, attach_shm)
+    except (RpcError, VersionError):
+        raise
+    except Exception as exc:
+        raise RpcError("ProtocolError", f"Malformed request: {type(exc).__name__}: {exc}", "") from exc
+
+
+def _decode_request(
+    batch: pa.RecordBatch,
+    custom_metadata: pa.KeyValueMetadata | None,
+    external_config: ExternalLocationConfig | None,
+    shm: ShmSegment | None,
+    attach_shm: Callable[[pa.KeyValueMetadata | None], ShmSegment | None] | None,
+) -> tuple[str, dict[str, object]]:
+    """Turn the drained request batch into ``(method_name, kwargs)`` (second half of :func:`_read_request`)."""
     _current_request_metadata.set(custom_metadata)
     # Stash the batch for access-log enrichment -- but only when the
     # transport has not already captured the raw wire bytes, which are
@@ -455,10 +488,18 @@ def _read_request(
     # Store trace context in contextvar for hook consumption (pipe/subprocess transport)
     tp = custom_metadata.get(TRACEPARENT_KEY) if custom_metadata else None
     if tp is not None:
-        headers: dict[str, str] = {"traceparent": tp.decode()}
-        ts = custom_metadata.get(TRACESTATE_KEY) if custom_metadata else None
-        if ts is not None:
-            headers["tracestate"] = ts.decode()
+        try:
+            headers: dict[str, str] = {"traceparent": tp.decode()}
+            ts = custom_metadata.get(TRACESTATE_KEY) if custom_metadata else None
+            if ts is not None:
+                headers["tracestate"] = ts.decode()
+        except UnicodeDecodeError as exc:
+            raise RpcError(
+                "ProtocolError",
+                "Invalid trace context in request batch custom_metadata: "
+                "'traceparent' and 'tracestate' must be valid UTF-8.",
+                "",
+            ) from exc
         _current_trace_headers.set(headers)
     # If the outer batch is an external-location pointer, fetch the
     # referenced bytes and use the inner batch's columns for kwargs.
